@@ -108,10 +108,10 @@ def run(ctx, obl):
         cid = "g%d" % i
         shoots = [m["decl"]["name"] for m in s["members"] if m["k"] == "e" and m.get("shoot")]
         # multi-type run (30%): companion types first (a generic one embedding a shoot type, with restrictions on fields named like T's)
-        cdecls, cnames = newgen.companion(ctx.rng, s, cid) if ctx.rng.random() < 0.3 else ([], [])
-        res.hist("multi_type", "companion" if cnames else "no")
-        args = ["new", "-getset", "-type=" + ",".join(cnames + shoots + [s["name"]])]
-        pc = {"id": cid, "files": {"t.go": newgen.render_file("cs", cdecls + [s])}, "runs": [{"args": args}], "oracle": {},
+        cdecls, cnames, cafter = newgen.companion(ctx.rng, s, cid, share_shoot=True) if ctx.rng.random() < 0.3 else ([], [], [])
+        res.hist("multi_type", "companion" if cnames else "companion-sharing-the-embedded-shoot-type" if cafter else "no")
+        args = ["new", "-getset", "-type=" + ",".join(cnames + shoots + cafter + [s["name"]])]
+        pc = {"id": cid, "files": {"t.go": newgen.render_file("cs", cdecls + [s])}, "runs": [{"args": args}] * (2 if ctx.rng.random() < 0.12 else 1), "oracle": {},
               "spec": s, "sexp": gs_sexp(cid, s, facts[i]), "cmd": "shoot " + " ".join(args),
               "key": dump([typedoc_sexp(s.get("typedoc")), newgen.members_sexp(s), sorted(facts[i])])}
         b.add(pc)
@@ -145,8 +145,10 @@ def run(ctx, obl):
         r = out[c["id"]]
         r1 = out1[c["id"]]
         im = dict(r["obs"])
-        im["exit"] = str(r1["runs"][0]["rc"])
+        im["exit"] = str(max(abs(x["rc"]) for x in r1["runs"]))
         im["compile"] = "ok" if r["compile"] == "ok" else "error"
+        if r["compile"] != "ok":
+            c.setdefault("detail", {})["compile"] = r["compile"]
         im["getters"] = " ".join(c["own"][0])
         im["setters"] = " ".join(c["own"][1])
         impl[c["id"]] = im
